@@ -654,6 +654,84 @@ func genOffset(r *vproto.Rng) *netCase {
 	return b.c
 }
 
+func ulps(x float64, k int) float64 {
+	dir := math.Inf(1)
+	if k < 0 {
+		dir, k = math.Inf(-1), -k
+	}
+	for i := 0; i < k; i++ {
+		x = math.Nextafter(x, dir)
+	}
+	return x
+}
+
+// near-coincident link ends at large coordinate magnitudes: every link end is the junction position
+// EXACTLY, or off by 1-4 ulps, or off by up to 4.5e-10 relative (mutually inside op.PointEquals'
+// 1e-9, so adjoining links must share the node); stub links start 2e-9 relative away from a junction
+// (outside the tolerance: must stay a separate node).  Junctions are 1000 units apart.
+func genJunction(r *vproto.Rng) *netCase {
+	b := newBuilder(r, "junction", false)
+	type mag struct{ x, y float64 }
+	mags := []mag{{1e3, 1e3}, {1e7, 1e7}, {-10380000, 5610000}, {math.Ldexp(1, 30), math.Ldexp(1, 30)}, {1e9, -1e9}, {-3e8, 7e8}}
+	m := mags[r.Intn(len(mags))]
+	const S = 1000.0
+	w, h := r.Range(2, 4), r.Range(2, 4)
+	for y := 0; y < h; y++ {
+		for x := 0; x < w; x++ {
+			b.node(pt(m.x+float64(x)*S, m.y+float64(y)*S))
+		}
+	}
+	end := func(i int) geom.Point {
+		p := b.nodes[i]
+		switch r.Intn(4) {
+		case 0:
+			return p
+		case 1:
+			return pt(ulps(p.X, r.Range(-4, 4)), p.Y)
+		case 2:
+			return pt(ulps(p.X, r.Range(-4, 4)), ulps(p.Y, r.Range(-4, 4)))
+		default:
+			return pt(p.X*(1+4.5e-10*(2*r.Float()-1)), p.Y*(1+4.5e-10*(2*r.Float()-1)))
+		}
+	}
+	spd := func() float64 {
+		if b.c.opt == "T" {
+			return anySpeed(r)
+		}
+		return 10
+	}
+	line := func(i, j int, bend float64) []geom.Point {
+		a, z := end(i), end(j)
+		if bend == 0 {
+			return []geom.Point{a, z}
+		}
+		return []geom.Point{a, pt(a.X-bend, a.Y), pt(a.X-bend, z.Y+bend/2), z}
+	}
+	for y := 0; y < h; y++ {
+		for x := 0; x < w; x++ {
+			i := y*w + x
+			if x+1 < w && !r.Chance(0.2) {
+				b.join(i, i+1, line(i, i+1, 0), spd())
+			}
+			if y+1 < h && !r.Chance(0.2) {
+				b.join(i, i+w, line(i, i+w, 0), spd())
+			}
+		}
+	}
+	for k := r.Range(1, 3); k > 0; k-- { // long ways round (the detour a split junction would force)
+		i, j := r.Intn(w*h), r.Intn(w*h)
+		b.join(i, j, line(i, j, S*float64(r.Range(1, 3))), spd())
+	}
+	for k := r.Intn(3); k > 0; k-- { // stubs starting just OUTSIDE the tolerance of a junction
+		p := b.nodes[r.Intn(len(b.nodes))]
+		q := pt(p.X*(1+4e-9), p.Y)
+		b.c.links = append(b.c.links, link{pts: []geom.Point{q, pt(p.X+S/2+float64(k), p.Y+S/3)}, speed: spd()})
+	}
+	b.shuffleLinks()
+	b.queries(6, S/50) // offsets (5, 2.5) around junctions
+	return b.c
+}
+
 type bigNet struct {
 	b   *builder
 	idx map[geom.Point]int
@@ -816,6 +894,20 @@ func corpus() []*netCase {
 		mk("design-six", "T", true, six, query{pt(0, 0), pt(20, 0), -1}),
 		mk("fastslow", "T", true, fast, query{pt(0, 0), pt(16, 0), -1}, query{pt(16, 0), pt(0, 0), -1}, query{pt(0, -8), pt(16, 0), -1}),
 		mk("fastslow", "D", true, fast, query{pt(0, 0), pt(16, 0), -1}),
+		// identification gaps: M'-T starts 2 units nearer T than node M (5e-10 relative: same node), the direct
+		// link S''-T starts 1 unit off S; heuristic h(M) = |MT| = 1e9 > w(M,T) = 1e9-2, so A* pops T first:
+		// returns 2e9-1, the chain over M costs 2e9-2 (known finding, see findings/C19.json)
+		mk("gap", "D", true, []link{
+			{[]geom.Point{pt(1e9, 1e9), pt(2e9, 1e9)}, 1},
+			{[]geom.Point{pt(2e9+2, 1e9), pt(3e9, 1e9)}, 1},
+			{[]geom.Point{pt(1e9+1, 1e9), pt(3e9, 1e9)}, 1}},
+			query{pt(1e9, 1e9), pt(3e9, 1e9), -1}),
+		// Web-Mercator magnitudes, the second short link starts 2 ulps off the junction B
+		mk("junction", "D", false, []link{
+			{[]geom.Point{pt(-10380000, 5610000), pt(-10379000, 5610000)}, 10},
+			{[]geom.Point{pt(ulps(-10379000, 2), 5610000), pt(-10379000, 5611000)}, 10},
+			{[]geom.Point{pt(-10380000, 5610000), pt(-10381000, 5610000), pt(-10381000, 5611000), pt(-10379000, 5611000)}, 10}},
+			query{pt(-10380003, 5609996), pt(-10378997, 5611004), -1}, query{pt(-10378997, 5611004), pt(-10380003, 5609996), -1}),
 		// history: A-B and D-C separate, ask A->C (empty), add B-C, ask again, add A-C, ask again
 		mk("history", "D", true, []link{{manhattan(pt(0, 0), pt(10, 0), 0), 1}, {manhattan(pt(0, 10), pt(10, 10), 0), 1},
 			{manhattan(pt(10, 0), pt(10, 10), 0), 1}, {manhattan(pt(0, 0), pt(0, 10), 0), 1}},
@@ -851,6 +943,7 @@ func gen(seed uint64, tier string) {
 		emit(genFloat(r, false), 0.3)
 		emit(genHistory(r), 0)
 		fmt.Fprintln(out, genOffset(r))
+		emit(genJunction(r), 0.3)
 		if i%2 == 0 {
 			emit(genGrid(r, "components", r.Range(2, 3)), 0.6)
 			emit(genFloat(r, true), 0.3)
